@@ -17,6 +17,14 @@ def handle (j : Json) : Json :=
     let (p, b, w) := split u.toList
     ok (Json.arr #[s2j p, s2j b, s2j w])
   | [Json.str "scalable", Json.str a, Json.str b] => ok (Json.bool (scalable a.toList b.toList))
+  | [Json.str "scalable_list", Json.arr a, Json.arr b] =>
+    let strs (x : Array Json) : Option (List Str) := x.toList.mapM fun j =>
+      match j with
+      | Json.str t => some t.toList
+      | _ => none
+    match strs a, strs b with
+    | some la, some lb => ok (Json.bool (Compound.scalableList la lb))
+    | _, _ => bad "C09: scalable_list takes two lists of strings"
   | [Json.str "scaling", Json.str a, Json.str b] =>
     match scaling a.toList b.toList with
     | .ok r => ok (Json.str (ratStr r))
